@@ -1,5 +1,7 @@
 package main
 
+import "sort"
+
 // Bounded exhaustive enumerators (DESIGN.md section 3, explorer 1).
 
 // seqEnum calls fn for every sequence of exactly k indices below n, in lexicographic order
@@ -80,4 +82,14 @@ func permutations(n int) [][]int {
 	}
 	rec(0, nil, make([]bool, n))
 	return out
+}
+
+// sortedKeys returns the keys of a string-keyed map in ascending order.
+func sortedKeys[V any](m map[string]V) []string {
+	ks := make([]string, 0, len(m))
+	for k := range m {
+		ks = append(ks, k)
+	}
+	sort.Strings(ks)
+	return ks
 }
